@@ -1022,6 +1022,12 @@ class Interp(object):
             raise AbsError("queue method %s (only put_nowait / get_nowait / empty keep FIFO order without blocking)" % name)
         if k == "NEWQ":
             raise AbsError("operation on a fresh queue before it is linked")
+        if k == "NEWI" and not recv[1]:
+            # a fresh, empty dict (`self._dict.get(arg1, {})`)
+            if name == "get" and len(args) in (1, 2):
+                return [(st, args[1] if len(args) == 2 else NONE)]
+            if name in ("items", "values", "keys") and not args:
+                return [(st, ("T",))]
         raise AbsError("method %s on %s" % (name, k))
 
 
